@@ -15,6 +15,10 @@
 (*   collect: the same predicates are evaluated by Observe (a CONSTRAINT that is always TRUE) and  *)
 (*            the ids of the violating configurations are accumulated in TLC registers 2 and 3,    *)
 (*            printed by the POSTCONDITION - one pass lists every violating configuration.         *)
+(*            Register 4 accumulates the (kind, request class) pairs that were handled: the        *)
+(*            POSTCONDITION prints them next to the pairs ConfigSpaceGrammar!Reqs demands of the    *)
+(*            kinds that served anything, so that the driver can tell when the harness sends fewer  *)
+(*            request classes than the specification lists ("any request" would be vacuous).        *)
 (***************************************************************************************************)
 EXTENDS ConfigSpace, Json, TLC, IOUtils
 
@@ -49,12 +53,17 @@ TInit0 == /\ l = 1 /\ cid = 0
 
 TSpec == TInit0 /\ [][TNext]_tvars
 
-ASSUME TLCSet(1, 0) /\ TLCSet(2, {}) /\ TLCSet(3, {})
+ASSUME TLCSet(1, 0) /\ TLCSet(2, {}) /\ TLCSet(3, {}) /\ TLCSet(4, {})
 HWM == TLCSet(1, IF l - 1 > TLCGet(1) THEN l - 1 ELSE TLCGet(1))
 Observe == /\ (NoPanicAfterAccept \/ TLCSet(2, TLCGet(2) \cup {cid}))
            /\ (RuleRejected \/ TLCSet(3, TLCGet(3) \cup {cid}))
+           /\ IF l > 1 /\ TLog[l - 1].ev = "handle"
+                 THEN TLCSet(4, TLCGet(4) \cup {<<kind, TLog[l - 1].q>>}) ELSE TRUE
+ReqNeed == {p \in {k \in AllKinds : \E s \in TLCGet(4) : s[1] = k} \X AllReqs : p[2] \in Reqs(p[1])}
 Accepted == /\ PrintT(<<"VERIF_HWM", TLCGet(1), Len(TLog)>>)
             /\ PrintT(<<"VERIF_PANICKED", TLCGet(2)>>)
             /\ PrintT(<<"VERIF_RULEBROKEN", TLCGet(3)>>)
+            /\ PrintT(<<"VERIF_REQSEEN", TLCGet(4)>>)
+            /\ PrintT(<<"VERIF_REQNEED", ReqNeed>>)
             /\ TLCGet(1) = Len(TLog)
 =============================================================================
